@@ -9,7 +9,11 @@ Inductive case :=
 (* a batch of library operations that announce something in the batch reply (swapBegin -> created swaps, multiSwapBegin ->
    created multi-swaps): per listed transaction, in listed order, its number, whether it is a multi-swap begin and whether
    its reply carries no error; and the numbers of the transactions whose swap / multi-swap the reply announces *)
-| CAnnounce (listed : list (N * bool * bool)) (o_swaps o_mswaps : list N).
+| CAnnounce (listed : list (N * bool * bool)) (o_swaps o_mswaps : list N)
+(* a batch or task list of scripted transactions that report accounting records (as balance moves do), some of them equal:
+   per listed transaction whether its reply carries no error, the amounts of the records its body reported, and the
+   amounts of the records the event lists for it *)
+| CAccount (listed : list (bool * list N * list N)).
 
 Definition same_led (m : ledger) (l : list (N * list N)) : bool :=
   let ml : ledger := list_to_map l in
@@ -22,6 +26,7 @@ Definition corr (c : case) : bool :=
   | CTasks bodies l0 ts res led => let '(l, rs) := tasks_exec bodies (list_to_map l0) ts in
                                    bool_decide (rs = res) && same_led l led
   | CAnnounce _ _ _ => true     (* nothing of the model is involved: a predicate on the reply alone *)
+  | CAccount _ => true
   end.
 
 (* what a reply must announce: exactly what its successful transactions produced, in their order *)
@@ -37,6 +42,11 @@ Definition holds (c : case) : bool :=
   | CTasks bodies l0 ts res led => let '(l, rs) := spec_tasks bodies (list_to_map l0) ts in
                                    bool_decide (rs = res) && same_led l led
   | CAnnounce listed sw ms => bool_decide (sw = announced false listed) && bool_decide (ms = announced true listed)
+  | CAccount listed =>
+    (* the event reports exactly the records a successful transaction produced - each as often as it was produced -,
+       and none for a failed one *)
+    forallb (fun x : bool * list N * list N =>
+               bool_decide (merge_sort N.le (snd x) = merge_sort N.le (if fst (fst x) then snd (fst x) else []))) listed
   end.
 
 Definition res_bit (r : ires) : N :=
@@ -47,5 +57,6 @@ Definition label (c : case) : N :=
   match c with
   | CBatch _ _ _ res _ => fold_right (fun r a => N.lor a (res_bit r)) 64%N res
   | CTasks _ _ _ res _ => fold_right (fun r a => N.lor a (res_bit r)) 128%N res
+  | CAccount listed => fold_right (fun (x : bool * list N * list N) a => N.lor a (if fst (fst x) then 8192%N else 16384%N)) 4096%N listed
   | CAnnounce listed _ _ => fold_right (fun (x : N * bool * bool) a => N.lor a (if snd x then 1024%N else 2048%N)) 512%N listed
   end.
